@@ -95,13 +95,6 @@ func (w *wireReq) del(name string) {
 	w.Headers = out
 }
 
-// fixContentLength rewrites an existing Content-Length line to the body length
-// (used by C30, whose mutations are inside the aws-chunked stream, not at the
-// HTTP framing level).
-func (w *wireReq) fixContentLength() {
-	w.set("Content-Length", fmt.Sprint(len(w.Body)))
-}
-
 // parseWire parses the output of http.Request.Write (head + raw body bytes).
 func parseWire(b []byte) (*wireReq, error) {
 	i := bytes.Index(b, []byte("\r\n\r\n"))
@@ -197,7 +190,6 @@ type result struct {
 	Status    int    `json:"status"` // 0 = connection error / no response
 	Err       string `json:"err,omitempty"`
 	Obs       *obs   `json:"obs,omitempty"`
-	RespBody  []byte `json:"-"`
 }
 
 // acceptedAuth: the request got through the signature middleware as an
